@@ -190,6 +190,39 @@ def corpus(features=()):
     out.append(dict(name="ref_conversion_query_param__escapes", family="borrow",
                     bad=prog("    let mut out: Option<&EntityAny> = None;\n    ecs_iter!(world, |h: &Entity<ArchFoo>| { out = Some(h.into()); });\n    world.destroy(e2);\n    let _ = out.map(|r| r.archetype_id());\n"),
                     good=prog("    let mut out: Option<EntityAny> = None;\n    ecs_iter!(world, |h: &Entity<ArchFoo>| { let r: &EntityAny = h.into(); out = Some(*r); });\n    world.destroy(e2);\n    let _ = out.map(|r| r.archetype_id());\n")))
+    # component names whose snake_case conversion is not trivial (digits, acronyms, underscores): every place that derives a
+    # field name from a type name must derive the SAME one. The twin uses such components through all five macros, OneOf,
+    # views, borrows and slices; the unsound program asks for the same one twice mutably.
+    odd_prelude = ("#![allow(unused, non_camel_case_types)]\n#![forbid(unsafe_code)]\nuse gecs::prelude::*;\n"
+                   "pub struct Vec3(pub u32);\npub struct Position2D(pub u32);\npub struct HTTPServer(pub u32);\npub struct Rgba8(pub u32);\npub struct X(pub u32);\npub struct Comp_9z(pub u32);\n"
+                   "ecs_world! {\n    ecs_archetype!(Arch1, Vec3, Position2D, HTTPServer);\n    ecs_archetype!(ArchB2, Vec3, Rgba8, Comp_9z, X);\n}\n")
+    odd_use = ("fn main() {\n    let mut world = EcsWorld::new();\n    let e = world.create::<Arch1>((Vec3(1), Position2D(2), HTTPServer(3)));\n    let f = world.create::<ArchB2>((Vec3(4), Rgba8(5), Comp_9z(6), X(7)));\n"
+               "    let mut n = 0u32;\n"
+               "    ecs_iter!(world, |v: &mut Vec3, o: &OneOf<Position2D, Rgba8>| { v.0 += 1; n += o.0; });\n"
+               "    ecs_iter_borrow!(world, |v: &Vec3, h: &HTTPServer| { n += v.0 + h.0; });\n"
+               "    n += ecs_find!(world, f, |m: &Comp_9z, x: &mut X, r: &Rgba8| { x.0 += 1; m.0 + r.0 }).unwrap();\n"
+               "    n += ecs_find_borrow!(world, e, |p: &Position2D, h: &mut HTTPServer| { h.0 += 1; p.0 }).unwrap();\n"
+               "    { let v = world.view(e).unwrap(); n += v.component::<Position2D>().0; }\n"
+               "    { let b = world.borrow(f).unwrap(); n += b.component::<Comp_9z>().0; }\n"
+               "    n += world.arch_1.get_slice::<HTTPServer>()[0].0 + world.arch_b_2.borrow_slice::<Rgba8>()[0].0;\n"
+               "    ecs_iter_destroy!(world, |_v: &Vec3, r: &Rgba8| { if r.0 == 5 { EcsStepDestroy::ContinueDestroy } else { EcsStepDestroy::Continue } });\n"
+               "    assert!(n > 0 && world.arch_b_2.len() == 0);\n}\n")
+    for mac, args in MACROS:
+        if "borrow" in mac:
+            continue
+        ret = " EcsStepDestroy::Continue" if mac == "ecs_iter_destroy" else ""
+        margs = args.replace("world, e, ", "world, e, ") if True else args
+        bad = odd_prelude + "fn main() {\n    let mut world = EcsWorld::new();\n    let e = world.create::<Arch1>((Vec3(1), Position2D(2), HTTPServer(3)));\n    %s!(%s|a: &mut Vec3, b: &mut Vec3| { a.0 += b.0;%s });\n}\n" % (mac, margs, ret)
+        out.append(dict(name="unusual_names__%s" % mac, bad=bad, good=odd_prelude + odd_use, family="borrow"))
+    # a query that names an archetype which is compiled out, in a parameter that is compiled out with it (the natural way to
+    # write feature-dependent code); the unsound twin enables the parameter, which then names a type that does not exist
+    gone_prelude = PRELUDE.replace("    ecs_archetype!(ArchBar, CompA);", "    ecs_archetype!(ArchBar, CompA);\n    #[cfg(any())]\n    ecs_archetype!(ArchExtra, CompA);")
+    for mac, args in MACROS:
+        ret = " EcsStepDestroy::Continue" if mac == "ecs_iter_destroy" else ""
+        body = "let _ = a.0;%s" % ret
+        good = gone_prelude + "fn main() {\n" + SETUP + "    %s!(%s|a: &CompA, #[cfg(any())] x: &Entity<ArchExtra>| { %s });\n}\n" % (mac, args, body)
+        bad = gone_prelude + "fn main() {\n" + SETUP + "    %s!(%s|a: &CompA, #[cfg(all())] x: &Entity<ArchExtra>| { %s });\n}\n" % (mac, args, body)
+        out.append(dict(name="cfg_disabled_archetype_named__%s" % mac, bad=bad, good=good, family="any"))
     # the helper types: a runtime-checked Borrow (it reads the RefCell flags of a world that stays usable in the parent thread)
     # must not cross a thread boundary; an exclusive View may, exactly when its components are Send
     out.append(dict(name="borrow_sent_to_thread", family="trait",
@@ -242,6 +275,8 @@ def classify(family, messages):
         ok = bool(codes & TRAIT_FAMILY)
     elif family == "macro":
         ok = any(t in texts for t in MACRO_TEXT)
+    elif family == "any":
+        ok = bool(messages)
     elif family == "missing":
         ok = bool(codes & MISSING_FAMILY)
     else:
